@@ -99,7 +99,7 @@ def _host_guard(facts, s):
 
 
 TABLE = {
-    r"^client::conn::transport::tcp::TcpConnecting::connect\|duration-arith\|div": ("guarded", "timeout / addresses.len(): the division is under the non-empty guard of the address list (C11.6 checks the guard)", None),
+    r"^client::conn::transport::tcp::TcpConnecting::(connect|new)\|duration-arith\|div": ("guarded", "timeout / addresses.len(): the division is under the non-empty guard of the address list (the delay table of C11.6 evaluates the empty list: a division by zero is not an outcome there)", None),
     r"^happy_eyeballs::EyeballSet::process_all\|panic\|panic_fmt": ("by-construction", "unreachable!/panic! on an internal state of the eyeball set (queue/task bookkeeping), not on request data"),
     r"^happy_eyeballs::EyeballSet::len\|assert-Overflow": ("by-construction", "queue.len() + tasks.len(): bounded by the number of resolved addresses"),
     r"^body::Body::as_boxed\|panic\|panic\|internal error: entered unreachable code": ("by-construction", "map_err on an Infallible error type"),
